@@ -4,7 +4,8 @@ from vlib import common, coq, gobuild, gw, s3c, e2e, hooks
 from vlib.common import coq_list
 from props.c05 import body_of, write_headers, classify
 
-THEOREMS = ["C11_crash_leaves_old_or_new", "C11_acknowledged_writes_survive", "C11_recovery_is_possible", "C11_versioned_delete_keeps_version", "C11_versioned_delete_frame", "C11_marker_first_order_refuted", "C11_directory_object_first_upload_atomic", "C11_directory_object_overwrite_refuted"]
+THEOREMS = ["C11_crash_leaves_old_or_new", "C11_acknowledged_writes_survive", "C11_recovery_is_possible", "C11_versioned_delete_keeps_version", "C11_versioned_delete_frame", "C11_marker_first_order_refuted", "C11_directory_object_first_upload_atomic", "C11_directory_object_overwrite_refuted",
+            "C11_delete_current_version_atomic", "C11_delete_current_version_completes", "C11_remove_first_order_refuted"]
 TARGETS = ["Properties/C11.vo", "Check/CrashCheck.vo"]
 CONFIGS = [("otmpfile+xattr", {"iam": False}), ("named-temp+xattr", {"iam": False, "otmp": False}), ("otmpfile+xattr+versioned", {"iam": False, "versioning": True}),
            ("otmpfile+sidecar", {"iam": False, "meta": "sidecar"}), ("named-temp+sidecar", {"iam": False, "otmp": False, "meta": "sidecar"}),
@@ -36,6 +37,8 @@ def run(chk):
     dcases = []          # directory-object uploads: (existing, attribute writes completed, class 0 missing / 1 old / 2 new / 9 neither)
     vcases = []          # DeleteObject in a versioned bucket: (steps completed, key still reads the old data, the old version still shown)
     VSTEP_OF = {"posix.objversion.stored": 1, "posix.deleteobject.marker.between": 2}
+    pcases = []          # DeleteObject ?versionId=<current>: (steps completed, what the key reads: 2 current / 1 previous / 0 nothing / 9 else, entries listed)
+    PSTEP_OF = {"posix.link.enter": 1, "posix.link.named": 1, "posix.link.beforerename": 1, "posix.link.published": 2}
     nb = [0]
     for label, cfg in (CONFIGS[:4] if quick else CONFIGS):
         versioned = bool(cfg.get("versioning"))
@@ -137,6 +140,8 @@ def run(chk):
                         if gv0.status != 200 or gv0.body != body_of(old) or not listed0:
                             problems.append("after the restart the version %s written before the %s (acknowledged) is %s: GET by its id answers %d %s, ListObjectVersions lists %r" % (
                                 old_vid, opname, "gone" if gv0.status != 200 else "altered" if gv0.body != body_of(old) else "not listed", gv0.status, gv0.code, ids))
+                        if opname == "delete-version" and site_ in PSTEP_OF:
+                            row["pcase"] = (PSTEP_OF[site_], {"new": 2, "old": 1, "missing": 0}.get(state, 9), len(ids))
                         if opname == "delete" and site_ in VSTEP_OF:
                             row["vcase"] = (VSTEP_OF[site_], state == "old", gv0.status == 200 and gv0.body == body_of(old) and listed0)
                     # every other case goes straight to emptying and deleting the bucket: what the killed request left behind must not
@@ -230,6 +235,8 @@ def run(chk):
                                  "[%s] %s killed at %s: %s" % (label, opname, s_, pr), row)
                     if "vcase" in row:
                         vcases.append((row["vcase"], row))
+                    if "pcase" in row and cfg.get("meta") != "sidecar":
+                        pcases.append((row["pcase"], row))
                     if "state" in row and s_ in STEP_OF and not versioned and cfg.get("meta") != "sidecar" and opname in ("put-new", "put-overwrite", "copy", "multipart-new", "multipart-overwrite", "delete"):
                         mcases.append(((0 if opname == "delete" else 1, not opname.endswith("-new"), STEP_OF[s_], {"old": 1, "new": 2, "missing": 0}.get(row["state"], 9)), row))
             # ---- directory objects: PutObject of a key ending in "/" writes its attributes one by one onto the directory (no temporary
@@ -279,6 +286,8 @@ def run(chk):
         text += "Definition MS := Eval vm_compute in bad case_ok cases.\nPrint MS.\n"
         text += "Definition vcases : list (nat * bool * bool) := " + coq_list(["(%d, %s, %s)" % (k, "true" if a else "false", "true" if b else "false") for (k, a, b), _ in vcases]) + ".\n"
         text += "Definition VS := Eval vm_compute in bad vcase_ok vcases.\nPrint VS.\n"
+        text += "Definition pcases : list (nat * nat * nat) := " + coq_list(["(%d, %d, %d)" % c_ for c_, _ in pcases]) + ".\n"
+        text += "Definition PS := Eval vm_compute in bad pcase_ok pcases.\nPrint PS.\n"
         text += "Definition dcases : list (bool * nat * nat) := " + coq_list(["(%s, %d, %d)" % ("true" if ex else "false", n_, cl) for (ex, n_, cl), _ in dcases]) + ".\n"
         text += "Definition DS := Eval vm_compute in bad dcase_ok dcases.\nPrint DS.\n"
         rc, out = coq.run_cases("C11_cases", text)
@@ -290,6 +299,9 @@ def run(chk):
             vs = coq.printed_list(out, "VS")
             chk.tie("T4 kill points of a versioned DeleteObject: what the key reads and whether the hidden version is still shown = Model.CrashVersions (%d kills)" % len(vcases),
                     vs is not None and not vs and len(vcases) >= 1, [vcases[int(i)][1] for i in (vs or [])[:5]] or "no kill reached")
+            ps = coq.printed_list(out, "PS")
+            chk.tie("T4 kill points of DeleteObject ?versionId=<current>: what the key reads and how many entries are listed = Model.CrashPromote (%d kills)" % len(pcases),
+                    ps is not None and not ps and len(pcases) >= 1, [pcases[int(i)][1] for i in (ps or [])[:5]] or "no kill reached")
             ds = coq.printed_list(out, "DS")
             chk.tie("T4 kill points of directory-object uploads: nothing listed / old / new / neither after the n-th attribute write = Model.CrashDirObj (%d kills)" % len(dcases),
                     ds is not None and not ds and len(dcases) >= 4, [dcases[int(i)][1] for i in (ds or [])[:5]] or "no kill reached")
